@@ -1,7 +1,7 @@
 #!/bin/sh
 # usage: tools/runall.sh [tier] ; honours VERIF_SEED. Prints one summary line per property.
 TIER="${1:-quick}"
-cd /verif
+cd "$(dirname "$0")/.." || exit 2
 for id in C02 C03 C06 C07 C08 C09 C10 C11 C12 C14 C15 C18 C19 C20; do
   s=$(date +%s)
   out=$(timeout 14400 ./check $id $TIER 2>&1); rc=$?
